@@ -334,7 +334,7 @@ pub fn cells_of(a: &Atom, cap: usize) -> Vec<Cell> {
     let pals: Vec<&[&str]> = a.holes.iter().map(|h| palette(h)).collect();
     let total: usize = pals.iter().map(|p| p.len()).product::<usize>().max(1);
     let mut out = Vec::new();
-    let mut push = |combo_index: usize, out: &mut Vec<Cell>| {
+    let push = |combo_index: usize, out: &mut Vec<Cell>| {
         let mut rem = combo_index;
         let mut expr = a.template.to_string();
         // fill from the last hole to the first so that $1 does not clobber $10 (no atom has 10 holes)
